@@ -43,6 +43,9 @@ type Case struct {
 	// Prev, when set: one Spec object first holds Prev's content and is asked for its minimum
 	// version, then is overwritten in place with this case's content and asked again.
 	Prev *Case `json:"same_object_held_before,omitempty"`
+	// EmptyAnn: every annotations member that is not a placed feature is present but empty (an
+	// object without annotations uses no annotation feature)
+	EmptyAnn bool `json:"annotations_present_but_empty_elsewhere,omitempty"`
 }
 
 func editsWith(c Case, pos int) specs.ContainerEdits {
@@ -77,6 +80,8 @@ func build(c Case) *specs.Spec {
 	}
 	if c.Place["specAnnotations"] != 0 {
 		s.Annotations = map[string]string{"k": "v"}
+	} else if c.EmptyAnn {
+		s.Annotations = map[string]string{}
 	}
 	s.ContainerEdits = editsWith(c, 0)
 	devs := make([]specs.Device, c.N)
@@ -87,6 +92,8 @@ func build(c Case) *specs.Spec {
 		}
 		if c.Place["devAnnotations"]&(1<<(k+1)) != 0 {
 			d.Annotations = map[string]string{"k": "v"}
+		} else if c.EmptyAnn {
+			d.Annotations = map[string]string{}
 		}
 		d.ContainerEdits = editsWith(c, k+1)
 		devs[k] = d
@@ -266,7 +273,7 @@ func space(n int, full bool) (int64, func(i int64) Case) {
 	for range devFeatures {
 		radix = append(radix, len(devOpts))
 	}
-	radix = append(radix, 2, 2)
+	radix = append(radix, 2, 2, 2)
 	ps := perms(n)
 	np := int64(len(ps))
 	return hx.Product(radix) * np, func(i int64) Case {
@@ -278,9 +285,9 @@ func space(n int, full bool) (int64, func(i int64) Case) {
 		for k, f := range devFeatures {
 			place[f] = devOpts[d[len(editFeatures)+k]]
 		}
-		place["specAnnotations"] = d[len(d)-2]
-		place["dottedClass"] = d[len(d)-1]
-		return Case{N: n, Place: place, Perm: ps[i%np]}
+		place["specAnnotations"] = d[len(d)-3]
+		place["dottedClass"] = d[len(d)-2]
+		return Case{N: n, Place: place, Perm: ps[i%np], EmptyAnn: d[len(d)-1] == 1}
 	}
 }
 
@@ -312,7 +319,7 @@ func main() {
 	}
 	r.Rule = "every assignment of the 8 version-gated features to position sets (spec level / device k of n, n<=3; each feature at " +
 		map[bool]string{true: "<=2 positions", false: "<=1 position (n=3) or <=2 (n<=2)"}[r.Thorough()] + ") x every device permutation x " +
-		fmt.Sprintf("%d declared version strings; each edits block also carries an untyped mount and a host-path-less device node as controls; ", len(declaredDomain)) +
+		fmt.Sprintf("%d declared version strings; each edits block also carries an untyped mount and a host-path-less device node as controls, and in half of the cases every annotations member that is not a placed feature is present but empty; ", len(declaredDomain)) +
 		"then histories of two contents held by ONE Spec object (asked, overwritten in place, asked again): all ordered pairs of the single-feature cases and every third case after its neighbour; " +
 		"oracle = literal feature->version table, maximum by semver. Cases distinct by construction; non-trivial = at least one feature used"
 	r.Assumptions = []string{"v-prefixed declared versions are only checked for absence of panics (statement does not define them)", "more than 3 devices are not enumerated"}
